@@ -2,6 +2,7 @@
   C03 — Cursor results depend only on content and logical position, not on history.
 -/
 import Grenad.Model.Abstract
+import Grenad.Proofs.TCursor7
 
 namespace Grenad.Props.C03
 
@@ -42,5 +43,149 @@ theorem C03_counterexample_pinned :
 theorem C03_witness_repaired :
     runOps true witnessOps = [.ok (some (e 1)), .ok (some (e 1)), .ok (some (e 2)), .ok (some (e 3)), .ok (some (e 1))] := by
   decide
+
+/-! ### The repaired cursor is correct: every history agrees with the specification cursor.
+
+`TCursor.Inv s root levels es c p` (Grenad/Proofs/TCursor7.lean) is the state invariant: the file is
+empty and nothing is held, or the file is a labelled tree (`Sub`), every held index block whose
+recorded offset carries the label of its own depth is the block stored at that offset (cache
+soundness), and — at position `i` — the held blocks are the root-to-leaf path of entry `i`, each
+index cursor on the child on that path and the data cursor on entry `i`.  The initial state
+satisfies it (`TCursor.Inv_c0`), every operation keeps it (`TCursor.step_inv`), so every state
+reachable by a history does (`C03_reachable_inv`).  A clone is a copy of the state value; that it
+"continues independently and correctly" is `C03_from_reachable` applied to that value. -/
+
+open TCursor
+
+/-- The initial cursor of a file (`ReaderCursor::new`). -/
+abbrev c0 := TCursor.c0
+/-- Run a history on the repaired cursor and on the specification cursor; collect result pairs. -/
+abbrev runBoth := TCursor.runBoth
+/-- The concrete state and logical position after a history. -/
+abbrev runState := TCursor.runState
+
+/-- One operation from a state satisfying the invariant: the result agrees with the
+    specification cursor and the invariant holds afterwards. -/
+theorem C03_step {s : Store} {root levels : Nat} {es : List Entry}
+    (h : FileOK s root levels es) {c : RC LC} {p : Spec.Pos}
+    (hinv : Inv s root levels es c p) (op : Op) :
+    Spec.Agree (RC.stepA s true c op).2 (Spec.step es p op).2 ∧
+      Inv s root levels es (RC.stepA s true c op).1 (Spec.step es p op).1 :=
+  step_inv h hinv op
+
+/-- Every state reached by a history from a state satisfying the invariant satisfies it. -/
+theorem C03_reachable_inv {s : Store} {root levels : Nat} {es : List Entry}
+    (h : FileOK s root levels es) {c : RC LC} {p : Spec.Pos}
+    (hinv : Inv s root levels es c p) (ops : List Op) :
+    Inv s root levels es (runState s es c p ops).1 (runState s es c p ops).2 :=
+  runState_inv h hinv ops
+
+/-- From any state satisfying the invariant (in particular any reachable state, hence any clone),
+    every history agrees with the specification cursor started at the corresponding position. -/
+theorem C03_from_reachable {s : Store} {root levels : Nat} {es : List Entry}
+    (h : FileOK s root levels es) {c : RC LC} {p : Spec.Pos}
+    (hinv : Inv s root levels es c p) (ops : List Op) :
+    ∀ x ∈ runBoth s es c p ops, Spec.Agree x.1 x.2 :=
+  runBoth_agree h hinv ops
+
+/-- **C03.** Over a well-formed file, every finite history of cursor operations on the repaired
+    reader cursor agrees with the specification cursor. -/
+theorem C03_history {s : Store} {root levels : Nat} {es : List Entry}
+    (h : FileOK s root levels es) (ops : List Op) :
+    ∀ x ∈ runBoth s es (c0 root levels) .fresh ops, Spec.Agree x.1 x.2 :=
+  runBoth_agree h (Inv_c0 h) ops
+
+/-- Clones: after any history `ops₁`, the state reached (a value; cloning copies it) answers any
+    further history `ops₂` as the specification cursor does from the position reached. -/
+theorem C03_clone {s : Store} {root levels : Nat} {es : List Entry}
+    (h : FileOK s root levels es) (ops₁ ops₂ : List Op) :
+    ∀ x ∈ runBoth s es (runState s es (c0 root levels) .fresh ops₁).1
+        (runState s es (c0 root levels) .fresh ops₁).2 ops₂, Spec.Agree x.1 x.2 :=
+  runBoth_agree h (runState_inv h (Inv_c0 h) ops₁) ops₂
+
+/-- Results depend only on content and logical position: two states at the same logical
+    position give the same result wherever the specification determines it. -/
+theorem C03_position_determines {s : Store} {root levels : Nat} {es : List Entry}
+    (h : FileOK s root levels es) {c₁ c₂ : RC LC} {p : Spec.Pos}
+    (h₁ : Inv s root levels es c₁ p) (h₂ : Inv s root levels es c₂ p) (op : Op) {r : Option Entry}
+    (hr : (Spec.step es p op).2 = some r) :
+    (RC.stepA s true c₁ op).2 = (RC.stepA s true c₂ op).2 := by
+  have a₁ := (step_inv h h₁ op).1
+  have a₂ := (step_inv h h₂ op).1
+  rw [hr] at a₁ a₂
+  exact a₁.trans a₂.symm
+
+/-! ### The hypotheses are satisfiable -/
+
+def witnessEntries : List Entry := [e 1, e 2, e 3, e 4]
+
+def witnessLvl (off : Nat) : Nat :=
+  if off < 100 then 0 else if off < 200 then 1 else if off < 300 then 2 else 3
+
+theorem witness_blocks : ∀ off es', witnessStore off = some es' → StrictAsc es' ∧ off < 2 ^ 64 := by
+  intro off es' h
+  unfold witnessStore at h
+  split at h <;> simp only [Option.some.injEq, reduceCtorEq] at h <;> subst h <;>
+    exact ⟨by unfold StrictAsc; decide, by decide⟩
+
+theorem witness_sub : Sub witnessStore witnessLvl 3 300 witnessEntries := by
+  have l0 : Sub witnessStore witnessLvl 0 0 [e 1] := .leaf 0 _ rfl (by simp) rfl
+  have l1 : Sub witnessStore witnessLvl 0 10 [e 2] := .leaf 10 _ rfl (by simp) rfl
+  have l2 : Sub witnessStore witnessLvl 0 20 [e 3] := .leaf 20 _ rfl (by simp) rfl
+  have l3 : Sub witnessStore witnessLvl 0 30 [e 4] := .leaf 30 _ rfl (by simp) rfl
+  have a : Sub witnessStore witnessLvl 1 100 [e 1, e 2] :=
+    .node 0 100 [(0, [e 1]), (10, [e 2])] (by simp) rfl rfl (by
+      intro k hk; simp at hk; rcases hk with rfl | rfl <;> assumption)
+  have b : Sub witnessStore witnessLvl 1 110 [e 3, e 4] :=
+    .node 0 110 [(20, [e 3]), (30, [e 4])] (by simp) rfl rfl (by
+      intro k hk; simp at hk; rcases hk with rfl | rfl <;> assumption)
+  have m : Sub witnessStore witnessLvl 2 200 [e 1, e 2, e 3, e 4] :=
+    .node 1 200 [(100, [e 1, e 2]), (110, [e 3, e 4])] (by simp) rfl rfl (by
+      intro k hk; simp at hk; rcases hk with rfl | rfl <;> assumption)
+  exact .node 2 300 [(200, [e 1, e 2, e 3, e 4])] (by simp) rfl rfl (by
+    intro k hk; simp at hk; subst hk; exact m)
+
+/-- The witness store of finding F1 is a well-formed file with two index levels below the root. -/
+theorem witness_fileOK : FileOK witnessStore 300 2 witnessEntries :=
+  ⟨by unfold StrictAsc witnessEntries; decide, Or.inr ⟨witnessLvl, witness_sub⟩, witness_blocks⟩
+
+/-- The empty file: an empty root block, any number of levels. -/
+def emptyStore : Store
+  | 0 => some []
+  | _ => none
+
+theorem empty_fileOK (levels : Nat) : FileOK emptyStore 0 levels [] :=
+  ⟨List.Pairwise.nil, Or.inl ⟨rfl, rfl⟩, by
+    intro off es' h
+    unfold emptyStore at h
+    split at h <;> simp only [Option.some.injEq, reduceCtorEq] at h
+    subst h; exact ⟨List.Pairwise.nil, by decide⟩⟩
+
+example (ops : List Op) :
+    ∀ x ∈ runBoth witnessStore witnessEntries (c0 300 2) .fresh ops, Spec.Agree x.1 x.2 :=
+  C03_history witness_fileOK ops
+
+example (levels : Nat) (ops : List Op) :
+    ∀ x ∈ runBoth emptyStore [] (c0 0 levels) .fresh ops, Spec.Agree x.1 x.2 :=
+  C03_history (empty_fileOK levels) ops
+
+example (ops₁ ops₂ : List Op) :
+    ∀ x ∈ runBoth witnessStore witnessEntries
+        (runState witnessStore witnessEntries (c0 300 2) .fresh ops₁).1
+        (runState witnessStore witnessEntries (c0 300 2) .fresh ops₁).2 ops₂, Spec.Agree x.1 x.2 :=
+  C03_clone witness_fileOK ops₁ ops₂
+
+/-- A sample history evaluated on both cursors (the specification leaves `next` / `current` open
+    after a `None`; there the repaired cursor answers from where its data cursor stayed). -/
+example : runBoth witnessStore witnessEntries (c0 300 2) .fresh
+    [.first, .next, .next, .first, .le [3], .prev, .prev, .prev, .next, .ge [9], .current, .last,
+      .next, .eq [2], .reset, .prev]
+  = [(.ok (some (e 1)), some (some (e 1))), (.ok (some (e 2)), some (some (e 2))),
+     (.ok (some (e 3)), some (some (e 3))), (.ok (some (e 1)), some (some (e 1))),
+     (.ok (some (e 3)), some (some (e 3))), (.ok (some (e 2)), some (some (e 2))),
+     (.ok (some (e 1)), some (some (e 1))), (.ok none, some none), (.ok (some (e 2)), none),
+     (.ok none, some none), (.ok (some (e 2)), none), (.ok (some (e 4)), some (some (e 4))),
+     (.ok none, some none), (.ok (some (e 2)), some (some (e 2))), (.ok none, some none),
+     (.ok (some (e 4)), some (some (e 4)))] := by decide
 
 end Grenad.Props.C03
